@@ -127,7 +127,16 @@ func c12() []*Ob {
 						names = append(names, FuncName(f))
 					}
 					sort.Strings(names)
-					key := "recur:" + strings.Join(names, "+")
+					// the cycle is identified by its first member that the recorded tree already had:
+					// a helper extracted from (or inlined into) the cycle leaves the finding what it was
+					rep := names[0]
+					for _, n := range names {
+						if c.P.RecordedFunc(n) {
+							rep = n
+							break
+						}
+					}
+					key := "recur:" + rep
 					if ok, how := DepthBounded(comp); ok {
 						c.Site(comp[0].Pos(), "recursion cycle {%s} is depth-bounded: %s", strings.Join(names, ", "), how)
 					} else {
